@@ -74,6 +74,7 @@ DataflowClause ==
                 /\ MLines[k].c[j].out_ok                          \* ... and what comes back is the conditional mean / covariance (numeric predicate, 1e-6)
           /\ MLines[k].set_ok                                     \* the state fed back is correct_pva(CURRENT integrator state, x[INS block])
           /\ MLines[k].upd_ok                                     \* the sensor estimates get the gyro / accel blocks of the same x
+          /\ MLines[k].pred_ok                                    \* the state at the epoch is predicted with the fraction (epoch - T) / dt of the corrected next increment
     /\ \A k \in 1..Len(ALines) : ALines[k].inc_ok           \* the integrator gets the raw increments corrected by the CURRENT sensor estimates
     /\ \A k \in 1..Len(ALines) : ALines[k].dt_ok /\ ALines[k].fq_ok  \* P is propagated over exactly the interval the integrator advanced, with the
                                                                    \* joint system (F, Q) of JointSystem.tla's block terms at the mid-point state
